@@ -13,7 +13,13 @@
     through the gates inserted by tools/overlaygen, for revoke / delete / rotate / expire, in
     direct and cluster-apply mode.  Verdict: the old value authenticates after the mutator
     returned.  Predicted thread positions (including "queued for the connection") are the
-    drift detector.  An extra sequential scenario lets expires_at pass while the entry is cached.
+    drift detector.
+(M+G, expiry) specs/auth/AuthExpiry.tla: one token with an expires_at, an integer clock and up to 3
+    VerifyToken calls at every clock position (first/second half of the cache TTL, after
+    expires_at, after the TTL); NeverAcceptedExpired must hold, the controls "no cap" (pre-b7d5157)
+    and "sliding deadline on hit" must fail.  Every generated history is replayed on the real
+    AuthManager with the overlay-substituted clock (auth.VerifNow); verdict: a verification after
+    expires_at succeeds.
 """
 import json
 import random
@@ -35,7 +41,7 @@ def gate_args():
     for f, fn in MUTATORS:
         a += ["-gate", "%s|%s|before-call:am.db.Exec|mut.beforeExec" % (f, fn)]
         a += ["-gate", "%s|%s|after-call:am.db.Exec|mut.afterExec" % (f, fn)]
-    return a
+    return a + ["-clock", "internal/auth/auth.go"]
 
 
 def run(ctx):
@@ -52,12 +58,18 @@ def run(ctx):
             lambda: ctx.tlc("auth", "AuthVerify", "Verify_MC_large.cfg", coverage=True, workers=2, heap="1g", timeout=1800),
             lambda: ctx.tlc("auth", "AuthVerify", "Verify_Gen_small.cfg", workers=2, heap="1g", timeout=1800),
             lambda: ctx.tlc("auth", "AuthVerify", "Verify_Gen_large.cfg", workers=2, heap="2g", timeout=1800),
-            lambda: ctx.tlc("auth", "AuthVerify", "Verify_MC_lapse.cfg", workers=1, heap="1g", timeout=1800)]
+            lambda: ctx.tlc("auth", "AuthVerify", "Verify_MC_lapse.cfg", workers=1, heap="1g", timeout=1800),
+            lambda: ctx.tlc("auth", "AuthExpiry", "Expiry_MC.cfg", coverage=True, workers=1, heap="1g", timeout=1800),
+            lambda: ctx.tlc("auth", "AuthExpiry", "Expiry_Gen.cfg", workers=2, heap="1g", timeout=1800)]
+    evariants = ["nocap", "slide"]
+    for v in evariants:
+        jobs.append(lambda v=v: ctx.tlc("auth", "AuthExpiry", "Expiry_Var_%s.cfg" % v, workers=1, heap="1g", timeout=1800, allow_violation=True))
     for v in variants:
         jobs.append(lambda v=v: ctx.tlc("auth", "AuthVerify", "Verify_Var_%s.cfg" % v, workers=1, heap="1g", timeout=1800, allow_violation=True))
     jobs.append(build)
     res = par(jobs)
-    mc1, mc2, g1, g2, mcl = res[:5]
+    mc1, mc2, g1, g2, mcl, emc, egen = res[:7]
+    eres = res[7:7 + len(evariants)]
     acts = ("VLookup", "VQuery", "VScan", "VInsert", "MStart", "MExec", "MFlush")
     for name, mc in (("Verify_MC_small.cfg", mc1), ("Verify_MC_large.cfg", mc2)):
         for a in acts:
@@ -69,11 +81,24 @@ def run(ctx):
                                  "invariants": ["NoLateSuccess", "FinalRejected", "NoStalePending", "NoStarvation"],
                                  "actions_fired": {a: mc2.coverage[a][0] for a in acts}})
     vnote = {}
-    for v, r in zip(variants, res[5:5 + len(variants)]):
+    for v, r in zip(variants, res[7 + len(evariants):7 + len(evariants) + len(variants)]):
         if r.violated != "Safety":
             raise InfraError("variant %s no longer violates Safety: the model lost its discriminating power" % v)
         vnote[v] = {"violated": r.violated, "distinct_when_found": r.distinct}
+    for v, r in zip(evariants, eres):
+        if r.violated != "NeverAcceptedExpired":
+            raise InfraError("expiry variant %s no longer violates NeverAcceptedExpired" % v)
+        vnote["expiry_" + v] = {"violated": r.violated, "distinct_when_found": r.distinct}
     ctx.note("tlc_variants_expected_to_fail", vnote)
+    for a in ("Tick", "Verify"):
+        if emc.coverage.get(a, (0, 0))[0] == 0:
+            raise InfraError("vacuous model AuthExpiry: action %s never fired" % a)
+    ctx.note("tlc_expiry_fragment", {"distinct": emc.distinct, "generated": emc.generated, "depth": emc.depth,
+                                     "invariants": ["NeverAcceptedExpired"], "histories_generated": len(egen.traces)})
+    if not egen.traces:
+        raise InfraError("AuthExpiry generator emitted nothing")
+    if not any(st["hit"] and i + 1 < len(t["steps"]) for t in egen.traces if t["exp"] > 0 for i, st in enumerate(t["steps"])):
+        raise InfraError("no generated expiry history hits the cache before a later verification")
     if not g1.traces or not g2.traces:
         raise InfraError("generator emitted nothing")
     if not any(k["to"] == "wait" for t in g1.traces for k in t["sched"]):
@@ -107,7 +132,9 @@ def run(ctx):
     sp = ctx.path("schedules.json")
     json.dump(scs, open(sp, "w"))
     rp = ctx.path("result.json")
-    ctx.run([built["bin"], "-schedules", sp, "-out", rp, "-grace", "300ms"], timeout=3000)
+    ep = ctx.path("expiry.json")
+    json.dump(egen.traces, open(ep, "w"))
+    ctx.run([built["bin"], "-schedules", sp, "-expiry", ep, "-out", rp, "-grace", "300ms"], timeout=3000)
     r = json.load(open(rp))
     if r.get("infra"):
         raise InfraError("authverify driver: " + r["infra"])
@@ -117,7 +144,9 @@ def run(ctx):
                 raise InfraError("gate %s was never reached by a scheduled thread" % g)
         if r["kicks_observed_blocked"] == 0:
             ctx.spec_drift("no kick was ever observed queued for the connection (model predicted %d)" % r["kicks_predicted_blocked"])
-    ctx.traces_validated(len(scs))
+    if r["runs_per_mutator"].get("expiry:direct", 0) != len(egen.traces) or r["runs_per_mutator"].get("expiry:apply", 0) != len(egen.traces):
+        raise InfraError("expiry histories replayed: %s of %d" % (r["runs_per_mutator"], len(egen.traces)))
+    ctx.traces_validated(len(scs) + len(egen.traces))
     ctx.count(evaluations=r["runs"], nontrivial_keys=r.get("run_keys") or [])
     ctx.note("runs", r["runs"])
     ctx.note("runs_per_mutator_and_mode", r["runs_per_mutator"])
